@@ -498,6 +498,10 @@ impl Ctx {
             e.1 = Violation { class: class.to_string(), what, case, order };
         }
     }
+    /// (class, what, minimal case) of every class seen so far
+    pub fn violations_snapshot(&self) -> Vec<(String, String, Value)> {
+        self.viols.lock().unwrap().values().map(|(_, v)| (v.class.clone(), v.what.clone(), v.case.clone())).collect()
+    }
     pub fn violation_count(&self) -> u64 {
         self.viols.lock().unwrap().values().map(|x| x.0).sum()
     }
@@ -538,6 +542,7 @@ impl Ctx {
                 let path = format!("{}/replays/{}-{}.json", root(), self.id, sanitize(&cv.1.class));
                 let doc = json!({
                     "property": self.id,
+                    "tier": if self.tier == Tier::Quick { "quick" } else { "thorough" },
                     "class": cv.1.class,
                     "occurrences": cv.0,
                     "what": cv.1.what,
